@@ -120,6 +120,67 @@ def grammar_cases(ctx, cat, n_lines, n_progs):
     return cases
 
 
+def history_cases(ctx, n):
+    """Value histories: sessions of 8..30 statements that create, re-assign (out of creation order), swap, erase and use string
+    and array values, interleaved with garbage collections (FRE) and DEF FN calls. The outcome class of every statement depends on
+    the string space / variable memory left by the whole history, which single statements on a fresh session never reach."""
+    rng = ctx.rng
+    sv = ['A$', 'B$', 'C$', 'S$(0)', 'S$(1)', 'S$(2)', 'T$(1,1)', 'T$(0,2)']
+    nv = ['X', 'Y%', 'Z#', 'N(1)', 'N(2)', 'M%(0,1,2)']
+
+    def sx(d=0):
+        r = rng.random()
+        if d > 1 or r < 0.2:
+            return rng.choice(['"ab"', '"q"', '""', 'CHR$(65)', 'SPACE$(3)', 'STRING$(%d,"x")' % rng.choice([0, 1, 40, 200, 255]), 'HEX$(255)',
+                               'STR$(X)', 'MKS$(1.5)', 'DATE$', 'INKEY$'])
+        if r < 0.5:
+            return rng.choice(sv)
+        if r < 0.75:
+            return '%s+%s' % (sx(d + 1), sx(d + 1))
+        return rng.choice(['MID$(%s,%d)', 'LEFT$(%s,%d)', 'RIGHT$(%s,%d)']) % (sx(d + 1), rng.choice([1, 2, 3, 255])) if r < 0.9 else \
+            rng.choice(['FNS$(%s)' % sx(d + 1), 'FNT$(%s,%s)' % (sx(d + 1), sx(d + 1))])
+
+    def nx():
+        return rng.choice(['LEN(%s)' % sx(), 'ASC(%s+"a")' % sx(), 'VAL(%s)' % sx(), 'INSTR(%s,%s)' % (sx(), sx()), 'FRE("")', 'FRE(0)',
+                           'X+1', 'N(1)*2', '(%s=%s)' % (sx(), sx()), '(%s<%s)' % (sx(), sx()), 'FNN(%s)' % rng.choice(nv), 'CVI(%s+"ab")' % sx()])
+
+    def st():
+        r = rng.random()
+        if r < 0.30:
+            return '%s=%s' % (rng.choice(sv), sx())
+        if r < 0.40:
+            a, b = rng.sample(sv, 2)
+            return 'SWAP %s,%s' % (a, b)
+        if r < 0.52:
+            return '%s=%s' % (rng.choice(nv), nx())
+        if r < 0.62:
+            return 'PRINT %s;%s' % (rng.choice(sv), nx())
+        if r < 0.70:
+            return rng.choice(['X=FRE("")', 'PRINT FRE("")', 'X=FRE(A$)', 'Y%=FRE(0)'])
+        if r < 0.78:
+            return rng.choice(['MID$(%s,%d)=%s' % (rng.choice(sv), rng.choice([1, 2, 9]), sx()), 'LSET %s=%s' % (rng.choice(sv), sx()),
+                               'RSET %s=%s' % (rng.choice(sv), sx())])
+        if r < 0.84:
+            return rng.choice(['ERASE S$', 'ERASE T$', 'ERASE N', 'DIM S$(3)', 'DIM T$(2,2)', 'DIM N(4)', 'ERASE S$:DIM S$(%d)' % rng.randint(2, 9),
+                               'OPTION BASE 1', 'OPTION BASE 0'])
+        if r < 0.90:
+            return rng.choice(['DEF FNS$(P$)=P$+A$', 'DEF FNT$(P$,Q$)=Q$+P$+S$(1)', 'DEF FNN(P)=P+LEN(B$)', 'DEF FNS$(A$)=A$+A$', 'DEFSTR P-Q',
+                               'DEFINT P', 'DEFSNG A-Z'])
+        if r < 0.94:
+            return rng.choice(['CLEAR', 'CLEAR ,%d' % rng.choice([20000, 30000, 60000]), 'CLEAR ,,%d' % rng.choice([256, 1000]), 'ON ERROR GOTO 0'])
+        if r < 0.97:
+            return rng.choice(['FIELD #3,8 AS A$,8 AS S$(1)', 'OPEN "F3" FOR RANDOM AS 3 LEN=16', 'CLOSE', 'GET #3,1', 'PUT #3,1'])
+        return rng.choice(['READ %s' % rng.choice(sv), 'RESTORE', 'LINE INPUT#1,%s' % rng.choice(sv), 'INPUT#1,%s' % rng.choice(sv),
+                           'OPEN "F1" FOR INPUT AS 1'])
+    cases = []
+    for _ in range(n):
+        lines = []
+        for _ in range(rng.randint(8, 30)):
+            lines.append(':'.join(st() for _ in range(rng.choice([1, 1, 1, 2, 3])))[:250])
+        cases.append({'arm': 'L', 'sub': 'value-history', 'lines': lines})
+    return cases
+
+
 # --------------------------------------------------------------------------- arm P: corpus mutation, soup
 _TOK = re.compile(r'"[^"\r\n]*"?|[A-Za-z][A-Za-z0-9.]*[$%!#]?|&[HhOo]?[0-9A-Fa-f]+|\d+\.?\d*(?:[EeDd][+-]?\d+)?[%!#]?|\s+|.', re.S)
 BOUNDARY = c01_catalogue.INT + ['32767', '-32768', '255', '256', '65535', '0', '""', 'CHR$(0)', '1E-39', '.', '&HFFFF', '&O177777', '65529',
@@ -478,7 +539,7 @@ def run(ctx):
     batches.append(('advanced', 'vga', [dict(c) for c in extra[len(extra) // 2:]]))
     # 2. other arms
     others = (grammar_cases(ctx, cat, vol(900, 9000), vol(900, 9000)) + corpus_cases(ctx, vol(700, 7000))
-              + soup_cases(ctx, vol(1200, 12000)))
+              + soup_cases(ctx, vol(1200, 12000)) + history_cases(ctx, vol(500, 8000)))
     seedfiles = []
     for p in corpus_programs():
         with open(p, 'rb') as f:
@@ -498,7 +559,7 @@ def run(ctx):
         scale_o = float(os.environ.get('VERIF_C01_SCALE_O', '1'))
         if 'O' in only_arms and scale_o != 1:
             n = int(scale_o)
-            big = (grammar_cases(ctx, cat, 900 * n, 900 * n) + corpus_cases(ctx, 700 * n) + soup_cases(ctx, 1200 * n)
+            big = (grammar_cases(ctx, cat, 900 * n, 900 * n) + corpus_cases(ctx, 700 * n) + soup_cases(ctx, 1200 * n) + history_cases(ctx, 500 * n)
                    + file_cases(ctx, 1200 * n, seedfiles))
             batches[-1] = ('advanced', 'cga', big)
     procs = int(os.environ.get('VERIF_C01_PROCS', ctx.pick(8, 12)))
